@@ -943,6 +943,11 @@ class DocutilsRenderer(RendererProtocol):
         # render the heading children into the title
         with self.current_node_context(title_node):
             self.render_children(token)
+        # warnings raised while rendering the title follow it (as in rST):
+        # sphinx collects the content of the title as document, toctree and toc title
+        for msg_node in list(findall(title_node)(nodes.system_message)):
+            msg_node.parent.remove(msg_node)
+            new_section.append(msg_node)
 
         self.generate_heading_target(token, level, new_section, title_node)
 
